@@ -30,7 +30,7 @@ Failing(e) ==
     Cl(P(e, "C13.total: the call panicked"), ok) \cup
     (IF ~ok THEN {} ELSE
        Cl(P(e, "C01+C13.noFalseNegative"), \A k \in Keys : Cls[k] \in gp => k \in qtp) \cup
-       Cl(P(e, "C13.noFalsePositive"), \A k \in qtp : Cls[k] \in gp) \cup
+       Cl(P(e, "C07+C13.noFalsePositive: present only if an indistinguishable element was inserted"), \A k \in qtp : Cls[k] \in gp) \cup
        Cl(P(e, "C13.len"), e.len_post = Cardinality(gp)) \cup
        Cl(P(e, "C19.isEmpty"), e.empty_post <=> (gp = {})) \cup
        Cl("C19.clone", e.twin_ok) \cup LockStepClause(e) \cup
